@@ -22,6 +22,7 @@ fn opcode_u8(op: OpCode) -> (r: u8) ensures r == opcode_byte(op) { op as u8 }
 #[verifier::external_body]
 fn prec_usize(p: Precedence) -> (r: usize) ensures r == prec_index(p) { p as usize }
 
+//@const file=yarel/src/common.rs name=NESTING_MAX
 //@rules file=yarel/src/compiler.rs name=RULES enum_file=yarel/src/scanner.rs enum=TokenKind
 
 // ------------------------------------------------------------------ obligations on the table itself
@@ -62,7 +63,7 @@ pub struct Token { pub kind: TokenKind }
 // one row of the table, as seen by the extracted code
 pub struct ParseRule { pub prefix: Option<ParseFnName>, pub infix: Option<ParseFnName>, pub precedence: Precedence }
 
-//@struct file=yarel/src/compiler.rs name=Parser keepfields=current,previous,single_target_mode map "Parser<'a>" => "Parser" addfield "pub code: Vec<u8>" addfield "pub ghost tokens_left: nat" addfield "pub ghost parsed_at: Seq<Precedence>" addfield "pub ghost bound: Seq<TokenKind>" addfield "pub ghost had_error: bool" addfield "pub ghost ended_code: Map<int, int>" addfield "pub ghost ended_tokens: Map<int, nat>"
+//@struct file=yarel/src/compiler.rs name=Parser keepfields=current,previous,single_target_mode,nesting map "Parser<'a>" => "Parser" addfield "pub code: Vec<u8>" addfield "pub ghost tokens_left: nat" addfield "pub ghost parsed_at: Seq<Precedence>" addfield "pub ghost bound: Seq<TokenKind>" addfield "pub ghost had_error: bool" addfield "pub ghost ended_code: Map<int, int>" addfield "pub ghost ended_tokens: Map<int, nat>"
 
 pub open spec fn prefix_of<T>(a: Seq<T>, b: Seq<T>) -> bool { a.len() <= b.len() && forall|j: int| 0 <= j < a.len() ==> #[trigger] b[j] == a[j] }
 // `ended_code[n]` / `ended_tokens[n]`: code length and tokens left when the parse_precedence call logged at parsed_at[n] returned
@@ -95,28 +96,33 @@ impl Parser {
         ensures final(self).stream_ok(), final(self).previous.kind == old(self).current.kind,
             final(self).tokens_left == (if old(self).tokens_left > 0 { (old(self).tokens_left - 1) as nat } else { 0 }),
             final(self).code == old(self).code, final(self).parsed_at == old(self).parsed_at, final(self).ended_code == old(self).ended_code, final(self).ended_tokens == old(self).ended_tokens, final(self).bound == old(self).bound,
-            final(self).single_target_mode == old(self).single_target_mode, old(self).had_error ==> final(self).had_error,
+            final(self).single_target_mode == old(self).single_target_mode, final(self).nesting == old(self).nesting, old(self).had_error ==> final(self).had_error,
     { unimplemented!() }
     #[verifier::external_body]
     fn match_token(&mut self, kind: TokenKind) -> (r: bool)
         requires old(self).stream_ok()
         ensures final(self).stream_ok(), old(self).extends(final(self)), final(self).code == old(self).code, final(self).parsed_at == old(self).parsed_at, final(self).ended_code == old(self).ended_code, final(self).ended_tokens == old(self).ended_tokens, final(self).bound == old(self).bound,
-            final(self).single_target_mode == old(self).single_target_mode, !r ==> final(self).current == old(self).current,
+            final(self).single_target_mode == old(self).single_target_mode, final(self).nesting == old(self).nesting, !r ==> final(self).current == old(self).current,
     { unimplemented!() }
     #[verifier::external_body]
     fn error(&mut self, message: &str)
         ensures final(self).had_error, final(self).code == old(self).code, final(self).tokens_left == old(self).tokens_left, final(self).current == old(self).current,
-            final(self).previous == old(self).previous, final(self).parsed_at == old(self).parsed_at, final(self).ended_code == old(self).ended_code, final(self).ended_tokens == old(self).ended_tokens, final(self).bound == old(self).bound, final(self).single_target_mode == old(self).single_target_mode,
+            final(self).previous == old(self).previous, final(self).parsed_at == old(self).parsed_at, final(self).ended_code == old(self).ended_code, final(self).ended_tokens == old(self).ended_tokens, final(self).bound == old(self).bound, final(self).single_target_mode == old(self).single_target_mode, final(self).nesting == old(self).nesting,
+    { unimplemented!() }
+    #[verifier::external_body]
+    fn error_at_current(&mut self, message: &str)
+        ensures final(self).had_error, final(self).code == old(self).code, final(self).tokens_left == old(self).tokens_left, final(self).current == old(self).current,
+            final(self).previous == old(self).previous, final(self).parsed_at == old(self).parsed_at, final(self).ended_code == old(self).ended_code, final(self).ended_tokens == old(self).ended_tokens, final(self).bound == old(self).bound, final(self).single_target_mode == old(self).single_target_mode, final(self).nesting == old(self).nesting,
     { unimplemented!() }
     #[verifier::external_body]
     fn emit_byte(&mut self, byte: u8)
         ensures final(self).code@ == old(self).code@.push(byte), final(self).tokens_left == old(self).tokens_left, final(self).current == old(self).current, final(self).previous == old(self).previous,
-            final(self).parsed_at == old(self).parsed_at, final(self).ended_code == old(self).ended_code, final(self).ended_tokens == old(self).ended_tokens, final(self).bound == old(self).bound, final(self).had_error == old(self).had_error, final(self).single_target_mode == old(self).single_target_mode,
+            final(self).parsed_at == old(self).parsed_at, final(self).ended_code == old(self).ended_code, final(self).ended_tokens == old(self).ended_tokens, final(self).bound == old(self).bound, final(self).had_error == old(self).had_error, final(self).single_target_mode == old(self).single_target_mode, final(self).nesting == old(self).nesting,
     { unimplemented!() }
     #[verifier::external_body]
     fn emit_bytes(&mut self, bytes: [u8; 2])
         ensures final(self).code@ == old(self).code@.push(bytes[0]).push(bytes[1]), final(self).tokens_left == old(self).tokens_left, final(self).current == old(self).current, final(self).previous == old(self).previous,
-            final(self).parsed_at == old(self).parsed_at, final(self).ended_code == old(self).ended_code, final(self).ended_tokens == old(self).ended_tokens, final(self).bound == old(self).bound, final(self).had_error == old(self).had_error, final(self).single_target_mode == old(self).single_target_mode,
+            final(self).parsed_at == old(self).parsed_at, final(self).ended_code == old(self).ended_code, final(self).ended_tokens == old(self).ended_tokens, final(self).bound == old(self).bound, final(self).had_error == old(self).had_error, final(self).single_target_mode == old(self).single_target_mode, final(self).nesting == old(self).nesting,
     { unimplemented!() }
 
     // `&RULES[kind as usize]`: by the generated table (in range: rules_table_has_one_row_per_token_kind)
@@ -128,41 +134,41 @@ impl Parser {
     // handler is some parsing function; it appends code and may consume tokens
     #[verifier::external_body]
     fn call_prefix(&mut self, handler: &ParseFnName, can_assign: bool)
-        requires old(self).stream_ok()
-        ensures final(self).stream_ok(), old(self).extends(final(self)), final(self).bound == old(self).bound, final(self).single_target_mode == old(self).single_target_mode,
+        requires old(self).stream_ok(), 1 <= old(self).nesting <= NESTING_MAX
+        ensures final(self).stream_ok(), old(self).extends(final(self)), final(self).bound == old(self).bound, final(self).single_target_mode == old(self).single_target_mode, final(self).nesting == old(self).nesting,
             prefix_of(old(self).parsed_at, final(self).parsed_at),
             ends_kept(old(self).parsed_at.len() as int, old(self).ended_code, old(self).ended_tokens, final(self).ended_code, final(self).ended_tokens),
     { unimplemented!() }
     #[verifier::external_body]
     fn call_infix(&mut self, handler: Option<ParseFnName>, can_assign: bool)
-        requires old(self).stream_ok(), handler is Some
-        ensures final(self).stream_ok(), old(self).extends(final(self)), final(self).bound == old(self).bound.push(old(self).previous.kind), final(self).single_target_mode == old(self).single_target_mode,
+        requires old(self).stream_ok(), handler is Some, 1 <= old(self).nesting <= NESTING_MAX
+        ensures final(self).stream_ok(), old(self).extends(final(self)), final(self).bound == old(self).bound.push(old(self).previous.kind), final(self).single_target_mode == old(self).single_target_mode, final(self).nesting == old(self).nesting,
             prefix_of(old(self).parsed_at, final(self).parsed_at),
             ends_kept(old(self).parsed_at.len() as int, old(self).ended_code, old(self).ended_tokens, final(self).ended_code, final(self).ended_tokens),
     { unimplemented!() }
 
     // The operator loop: an infix operator is bound by THIS call only if its table level is at least the requested
     // level; when the call returns, the next token binds more weakly than requested (or an error is on record).
-    //@fn file=yarel/src/compiler.rs path=Parser::parse_precedence obname=Parser::parse_precedence
+    //@fn file=yarel/src/compiler.rs path=Parser::parse_operand_and_operators
     //@  rewrite R21
     //@  subst "self.get_rule(self.current.kind).precedence as usize" => "prec_usize(self.get_rule(self.current.kind).precedence)"
     //@  subst "Precedence::Assignment as usize" => "prec_usize(Precedence::Assignment)"
     //@  subst "precedence as usize" => "prec_usize(precedence)"
     //@  subst "Some(ref handler) => handler(self, can_assign)," => "Some(ref handler) => self.call_prefix(handler, can_assign),"
     //@  subst "infix_rule.unwrap()(self, can_assign);" => "self.call_infix(infix_rule, can_assign);"
-    //@  requires old(self).stream_ok(), prec_index(precedence) >= prec_index(Precedence::Assignment)
+    //@  requires old(self).stream_ok(), prec_index(precedence) >= prec_index(Precedence::Assignment), 1 <= old(self).nesting <= NESTING_MAX
     //@  at body.start let ghost b0 = self.bound.len(); let ghost n0 = self.parsed_at.len() as int; proof { self.parsed_at = self.parsed_at.push(precedence); }
     //@  before_stmt "return;" proof { self.ended_code = self.ended_code.insert(n0, self.code@.len() as int); self.ended_tokens = self.ended_tokens.insert(n0, self.tokens_left); }
     //@  at body.end proof { self.ended_code = self.ended_code.insert(n0, self.code@.len() as int); self.ended_tokens = self.ended_tokens.insert(n0, self.tokens_left); }
-    //@  loop 0 invariant self.stream_ok(), old(self).extends(self), self.bound.len() >= b0, self.bound.subrange(0, b0 as int) == old(self).bound, self.single_target_mode == old(self).single_target_mode
+    //@  loop 0 invariant self.stream_ok(), old(self).extends(self), self.bound.len() >= b0, self.bound.subrange(0, b0 as int) == old(self).bound, self.single_target_mode == old(self).single_target_mode, self.nesting == old(self).nesting
     //@  loop 0 invariant forall|i: int| b0 <= i < self.bound.len() ==> prec_index(rule_precedence(#[trigger] self.bound[i])) >= prec_index(precedence)
-    //@  loop 0 invariant prec_index(precedence) >= prec_index(Precedence::Assignment), n0 == old(self).parsed_at.len()
+    //@  loop 0 invariant prec_index(precedence) >= prec_index(Precedence::Assignment), n0 == old(self).parsed_at.len(), 1 <= self.nesting <= NESTING_MAX
     //@  loop 0 invariant ends_kept(n0, old(self).ended_code, old(self).ended_tokens, self.ended_code, self.ended_tokens)
     //@  loop 0 invariant self.parsed_at.len() > old(self).parsed_at.len(), prefix_of(old(self).parsed_at, self.parsed_at), self.parsed_at[old(self).parsed_at.len() as int] == precedence
     //@  loop 0 decreases self.tokens_left
     //@  at loop0.start let ghost s0 = *self; proof { every_binding_token_has_an_infix_handler(self.current.kind); end_of_input_binds_nothing(); }
     //@  at loop0.end proof { let ghost s1 = *self; Parser::lemma_extends_trans(old(self), &s0, &s1); }
-    //@  ensures final(self).stream_ok(), old(self).extends(final(self)), final(self).single_target_mode == old(self).single_target_mode
+    //@  ensures final(self).stream_ok(), old(self).extends(final(self)), final(self).single_target_mode == old(self).single_target_mode, final(self).nesting == old(self).nesting
     //@  ensures final(self).parsed_at.len() > old(self).parsed_at.len(), prefix_of(old(self).parsed_at, final(self).parsed_at), final(self).parsed_at[old(self).parsed_at.len() as int] == precedence
     //@  ensures ends_kept(old(self).parsed_at.len() as int, old(self).ended_code, old(self).ended_tokens, final(self).ended_code, final(self).ended_tokens)
     //@  ensures ({ let n = old(self).parsed_at.len() as int; final(self).ended_code.dom().contains(n) && final(self).ended_code[n] == final(self).code@.len() && final(self).ended_tokens.dom().contains(n) && final(self).ended_tokens[n] == final(self).tokens_left })
@@ -170,11 +176,55 @@ impl Parser {
     //@  ensures @stops_at_the_first_weaker_operator final(self).had_error || prec_index(rule_precedence(final(self).current.kind)) < prec_index(precedence)
     //@end
 
+    // Nesting bound (C03): blocks and expressions nest by recursion; `nesting` counts the activations of block() and
+    // parse_precedence() on the host stack and never exceeds NESTING_MAX, so no source text can exhaust the stack.
+    //@fn file=yarel/src/compiler.rs path=Parser::enter_nesting ret=r
+    //@  rewrite R11
+    //@  requires old(self).stream_ok(), old(self).nesting <= NESTING_MAX
+    //@  ensures final(self).stream_ok(), old(self).extends(final(self)), final(self).code == old(self).code, final(self).parsed_at == old(self).parsed_at, final(self).bound == old(self).bound, final(self).ended_code == old(self).ended_code, final(self).ended_tokens == old(self).ended_tokens, final(self).single_target_mode == old(self).single_target_mode
+    //@  ensures @an_accepted_level_is_within_the_bound r ==> final(self).nesting == old(self).nesting + 1 && final(self).nesting <= NESTING_MAX && final(self).tokens_left == old(self).tokens_left && final(self).current == old(self).current && final(self).previous == old(self).previous && final(self).had_error == old(self).had_error
+    //@  ensures @a_level_beyond_the_bound_is_a_compile_error_that_consumes_input !r ==> final(self).had_error && final(self).nesting == old(self).nesting && (old(self).tokens_left > 0 ==> final(self).tokens_left < old(self).tokens_left)
+    //@end
+
+    //@fn file=yarel/src/compiler.rs path=Parser::parse_precedence
+    //@  requires old(self).stream_ok(), prec_index(precedence) >= prec_index(Precedence::Assignment), old(self).nesting <= NESTING_MAX
+    //@  ensures final(self).stream_ok(), old(self).extends(final(self)), final(self).single_target_mode == old(self).single_target_mode
+    //@  ensures @the_nesting_count_is_restored final(self).nesting == old(self).nesting
+    //@  ensures prefix_of(old(self).parsed_at, final(self).parsed_at), ends_kept(old(self).parsed_at.len() as int, old(self).ended_code, old(self).ended_tokens, final(self).ended_code, final(self).ended_tokens)
+    //@  ensures final(self).had_error || (final(self).parsed_at.len() > old(self).parsed_at.len() && final(self).parsed_at[old(self).parsed_at.len() as int] == precedence)
+    //@  ensures final(self).had_error || ({ let n = old(self).parsed_at.len() as int; final(self).ended_code.dom().contains(n) && final(self).ended_code[n] == final(self).code@.len() && final(self).ended_tokens.dom().contains(n) && final(self).ended_tokens[n] == final(self).tokens_left })
+    //@  ensures final(self).had_error || (final(self).bound.len() >= old(self).bound.len() && final(self).bound.subrange(0, old(self).bound.len() as int) == old(self).bound && forall|i: int| old(self).bound.len() <= i < final(self).bound.len() ==> prec_index(rule_precedence(#[trigger] final(self).bound[i])) >= prec_index(precedence))
+    //@  ensures final(self).had_error || prec_index(rule_precedence(final(self).current.kind)) < prec_index(precedence)
+    //@end
+
+    // statements nested in a block (recursion back into block() / parse_precedence() happens below this call)
+    #[verifier::external_body]
+    fn declaration(&mut self)
+        requires old(self).stream_ok(), 1 <= old(self).nesting <= NESTING_MAX
+        ensures final(self).stream_ok(), old(self).extends(final(self)), final(self).nesting == old(self).nesting, final(self).single_target_mode == old(self).single_target_mode
+    { unimplemented!() }
+    #[verifier::external_body]
+    fn check(&self, kind: TokenKind) -> bool { unimplemented!() }
+    #[verifier::external_body]
+    fn consume(&mut self, kind: TokenKind, message: &str)
+        requires old(self).stream_ok()
+        ensures final(self).stream_ok(), old(self).extends(final(self)), final(self).nesting == old(self).nesting, final(self).single_target_mode == old(self).single_target_mode
+    { unimplemented!() }
+    // block(): one nesting level per block; the count is restored on every path (the statement loop is checked for
+    // partial correctness: progress of declaration() is the parser's error recovery, not under contract)
+    //@fn file=yarel/src/compiler.rs path=Parser::block
+    //@  attr #[verifier::exec_allows_no_decreases_clause]
+    //@  requires old(self).stream_ok(), old(self).nesting <= NESTING_MAX
+    //@  loop 0 invariant self.stream_ok(), self.nesting == old(self).nesting + 1, 1 <= self.nesting <= NESTING_MAX
+    //@  ensures final(self).stream_ok()
+    //@  ensures @the_nesting_count_is_restored final(self).nesting == old(self).nesting
+    //@end
+
     // expression(): the whole assignment level — or, for the right-hand side of a compound assignment, the level of `|`
     //@fn file=yarel/src/compiler.rs path=Parser::expression
-    //@  requires old(self).stream_ok()
-    //@  ensures final(self).stream_ok(), old(self).extends(final(self)), final(self).single_target_mode == old(self).single_target_mode
-    //@  ensures @an_expression_is_parsed_at_the_assignment_level final(self).parsed_at.len() > old(self).parsed_at.len() && final(self).parsed_at[old(self).parsed_at.len() as int] == (if old(self).single_target_mode { Precedence::BitwiseOr } else { Precedence::Assignment })
+    //@  requires old(self).stream_ok(), old(self).nesting <= NESTING_MAX
+    //@  ensures final(self).stream_ok(), old(self).extends(final(self)), final(self).single_target_mode == old(self).single_target_mode, final(self).nesting == old(self).nesting
+    //@  ensures @an_expression_is_parsed_at_the_assignment_level final(self).had_error || final(self).parsed_at.len() > old(self).parsed_at.len() && final(self).parsed_at[old(self).parsed_at.len() as int] == (if old(self).single_target_mode { Precedence::BitwiseOr } else { Precedence::Assignment })
     //@end
 
     // A op B (left-associative): the right operand is parsed ONE LEVEL ABOVE the operator's own level, so an operator of
@@ -184,31 +234,31 @@ impl Parser {
     //@  rewrite R21
     //@  subst "Precedence::from(" => "precedence_from("
     //@  subst "rule_precedence as usize" => "prec_usize(rule_precedence)"
-    //@  requires old(s).stream_ok(), rule_infix(old(s).previous.kind) == Some(ParseFnName::binary)
+    //@  requires old(s).stream_ok(), old(s).nesting <= NESTING_MAX, rule_infix(old(s).previous.kind) == Some(ParseFnName::binary)
     //@  at body.start proof { binary_operators_have_a_next_level(s.previous.kind); }
     //@  ensures final(s).stream_ok(), old(s).extends(final(s))
-    //@  ensures @right_operand_binds_one_level_tighter_than_the_operator final(s).parsed_at.len() > old(s).parsed_at.len() && prec_index(final(s).parsed_at[old(s).parsed_at.len() as int]) == prec_index(rule_precedence(old(s).previous.kind)) + 1
-    //@  ensures @operator_code_follows_both_operands ({ let n = old(s).parsed_at.len() as int; final(s).ended_code.dom().contains(n) && final(s).ended_tokens.dom().contains(n) && final(s).tokens_left == final(s).ended_tokens[n] && final(s).code@.len() <= final(s).ended_code[n] + 2 })
-    //@  ensures @every_operator_routed_to_binary_emits_an_instruction ({ let n = old(s).parsed_at.len() as int; final(s).ended_code.dom().contains(n) && final(s).code@.len() > final(s).ended_code[n] })
+    //@  ensures @right_operand_binds_one_level_tighter_than_the_operator final(s).had_error || final(s).parsed_at.len() > old(s).parsed_at.len() && prec_index(final(s).parsed_at[old(s).parsed_at.len() as int]) == prec_index(rule_precedence(old(s).previous.kind)) + 1
+    //@  ensures @operator_code_follows_both_operands final(s).had_error || ({ let n = old(s).parsed_at.len() as int; final(s).ended_code.dom().contains(n) && final(s).ended_tokens.dom().contains(n) && final(s).tokens_left == final(s).ended_tokens[n] && final(s).code@.len() <= final(s).ended_code[n] + 2 })
+    //@  ensures @every_operator_routed_to_binary_emits_an_instruction final(s).had_error || ({ let n = old(s).parsed_at.len() as int; final(s).ended_code.dom().contains(n) && final(s).code@.len() > final(s).ended_code[n] })
     //@end
 
     // op A: the operand is parsed at the Unary level (so `-a.b` negates `a.b`, `-a * b` is `(-a) * b`), operator last
     //@fn file=yarel/src/compiler.rs path=Parser::unary
     //@  rewrite R21
-    //@  requires old(s).stream_ok(), rule_prefix(old(s).previous.kind) == Some(ParseFnName::unary)
+    //@  requires old(s).stream_ok(), old(s).nesting <= NESTING_MAX, rule_prefix(old(s).previous.kind) == Some(ParseFnName::unary)
     //@  ensures final(s).stream_ok(), old(s).extends(final(s))
-    //@  ensures @operand_binds_at_the_unary_level final(s).parsed_at.len() > old(s).parsed_at.len() && final(s).parsed_at[old(s).parsed_at.len() as int] == Precedence::Unary
-    //@  ensures @the_operand_starts_right_behind_the_operator ({ let n = old(s).parsed_at.len() as int; final(s).ended_tokens.dom().contains(n) && final(s).ended_tokens[n] <= old(s).tokens_left }) && old(s).code@.len() <= final(s).code@.len()
-    //@  ensures @operator_instruction_follows_the_operand ({ let n = old(s).parsed_at.len() as int; final(s).ended_code.dom().contains(n) && final(s).ended_tokens.dom().contains(n) && final(s).tokens_left == final(s).ended_tokens[n] && final(s).code@.len() == final(s).ended_code[n] + 1 })
+    //@  ensures @operand_binds_at_the_unary_level final(s).had_error || final(s).parsed_at.len() > old(s).parsed_at.len() && final(s).parsed_at[old(s).parsed_at.len() as int] == Precedence::Unary
+    //@  ensures @the_operand_starts_right_behind_the_operator final(s).had_error || ({ let n = old(s).parsed_at.len() as int; final(s).ended_tokens.dom().contains(n) && final(s).ended_tokens[n] <= old(s).tokens_left }) && old(s).code@.len() <= final(s).code@.len()
+    //@  ensures @operator_instruction_follows_the_operand final(s).had_error || ({ let n = old(s).parsed_at.len() as int; final(s).ended_code.dom().contains(n) && final(s).ended_tokens.dom().contains(n) && final(s).tokens_left == final(s).ended_tokens[n] && final(s).code@.len() == final(s).ended_code[n] + 1 })
     //@end
 
     // A .. B: the right bound is parsed at the Unary level (`1..n+1` is `(1..n)+1`), BuildRange last
     //@fn file=yarel/src/compiler.rs path=Parser::dotdot
     //@  rewrite R21
-    //@  requires old(s).stream_ok()
+    //@  requires old(s).stream_ok(), old(s).nesting <= NESTING_MAX
     //@  ensures final(s).stream_ok(), old(s).extends(final(s))
-    //@  ensures @right_bound_binds_at_the_unary_level final(s).parsed_at.len() > old(s).parsed_at.len() && final(s).parsed_at[old(s).parsed_at.len() as int] == Precedence::Unary
-    //@  ensures @build_range_follows_both_bounds ({ let n = old(s).parsed_at.len() as int; final(s).ended_code.dom().contains(n) && final(s).ended_tokens.dom().contains(n) && final(s).tokens_left == final(s).ended_tokens[n] && final(s).code@.len() == final(s).ended_code[n] + 1 && final(s).code@[final(s).ended_code[n]] == opcode_byte(OpCode::BuildRange) })
+    //@  ensures @right_bound_binds_at_the_unary_level final(s).had_error || final(s).parsed_at.len() > old(s).parsed_at.len() && final(s).parsed_at[old(s).parsed_at.len() as int] == Precedence::Unary
+    //@  ensures @build_range_follows_both_bounds final(s).had_error || ({ let n = old(s).parsed_at.len() as int; final(s).ended_code.dom().contains(n) && final(s).ended_tokens.dom().contains(n) && final(s).tokens_left == final(s).ended_tokens[n] && final(s).code@.len() == final(s).ended_code[n] + 1 && final(s).code@[final(s).ended_code[n]] == opcode_byte(OpCode::BuildRange) })
     //@end
 }
 
